@@ -281,6 +281,10 @@ type runStats struct {
 
 // runScenario executes one scenario, compares with the model and evaluates the property.
 func runScenario(c *corr.Ctx, sc *Scenario, name string, st *runStats) {
+	if sc.Churn != nil {
+		runChurn(c, sc)
+		return
+	}
 	st.runs++
 	h := &harness{sc: sc, pk: genPackets(sc)}
 	tStart := time.Now()
@@ -741,6 +745,7 @@ func Run(c *corr.Ctx) {
 	for i, sc := range refusedScenarios(c.Rng.Uint64()) {
 		runScenario(c, sc, fmt.Sprintf("refused/%d", i), st)
 	}
+	runScenario(c, &Scenario{Churn: &ChurnSpec{Seed: c.Rng.Uint64(), Writers: 4, Readers: 8, Cycles: c.N(40, 200)}}, "churn", st)
 	runScenario(c, secureBurst(c.Rng.Uint64(), "tcp"), "secure-burst/record-tcp", st)
 	runScenario(c, secureBurst(c.Rng.Uint64(), "udp"), "secure-burst/record-udp", st)
 	runScenario(c, secureBackChannel(c.Rng.Uint64()), "secure-burst/back-channel", st)
